@@ -877,6 +877,33 @@ func addMiscIntrinsics(m map[string]Intrinsic) {
 	// crypto/tls's own HPKE sender (real X25519/HKDF/AEAD) is not encodable: the
 	// client handshake is cut here with an error (what precedes it - parsing and
 	// choosing the ECH config - is what the harness observes).
+	m["crypto/internal/hpke.SetupReceipient"] = func(g *Goroutine, c *frame, fn *ssa.Function, a []Value) (Value, bool) {
+		return tup(Value{K: KPtr}, g.w.prog.newError("verif: HPKE receiver not modelled")), true
+	}
+	// X25519 private key import: the scalar multiplication that derives the public
+	// key is not encodable; the key keeps its bytes and gets an opaque public key.
+	m["(*crypto/ecdh.x25519Curve).NewPrivateKey"] = func(g *Goroutine, c *frame, fn *ssa.Function, a []Value) (Value, bool) {
+		prog := g.w.prog
+		key := a[1].slice()
+		if len(key) != 32 {
+			return tup(Value{K: KPtr}, prog.newError("crypto/ecdh: invalid private key size")), true
+		}
+		privT := prog.namedType("crypto/ecdh", "PrivateKey")
+		pubT := prog.namedType("crypto/ecdh", "PublicKey")
+		curveIface := mkIface(fn.Signature.Recv().Type(), a[0])
+		pub := zero(pubT)
+		setField(pub, pubT, "curve", curveIface)
+		setField(pub, pubT, "publicKey", mkSlice(g.p.freshBytes(32, "pk")))
+		pubCell := new(Value)
+		*pubCell = pub
+		priv := zero(privT)
+		setField(priv, privT, "curve", curveIface)
+		setField(priv, privT, "privateKey", mkSlice(cloneVals(key)))
+		setField(priv, privT, "publicKey", mkPtr(pubCell))
+		privCell := new(Value)
+		*privCell = priv
+		return tup(mkPtr(privCell), nilErr()), true
+	}
 	m["crypto/internal/hpke.SetupSender"] = func(g *Goroutine, c *frame, fn *ssa.Function, a []Value) (Value, bool) {
 		return tup(Value{K: KSlice}, Value{K: KPtr}, g.w.prog.newError("verif: HPKE sender not modelled")), true
 	}
